@@ -208,7 +208,13 @@ void splitMemoryAlongDepthMux(hlim::NodeGroup *group, size_t log2SplitDepth, boo
 
 		for (auto reg : rp.dedicatedReadLatencyRegisters) {
 			Clock clock(reg->getClocks()[0]);
-			addrHighBitDelayed = clock(addrHighBitDelayed);
+			// the select must stall together with the read latency register it accompanies
+			auto enableDriver = reg->getDriver(hlim::Node_Register::ENABLE);
+			if (enableDriver.node != nullptr) {
+				ENIF (Bit(SignalReadPort(enableDriver)))
+					addrHighBitDelayed = clock(addrHighBitDelayed);
+			} else
+				addrHighBitDelayed = clock(addrHighBitDelayed);
 		}
 
 		BVec rdDataHook = hookBVecAfter(rp.dataOutput);
